@@ -242,6 +242,7 @@ class FixedDraw(np.random.RandomState):
         self.k = k
 
     def randint(self, low, high=None, size=None, dtype=int):
+        self.draws = getattr(self, "draws", 0) + 1
         return self.k
 
 
@@ -923,10 +924,25 @@ def run(ctx):
                 if len(want) >= 2:
                     ctx.count("br:ties")
                 sm = int(player.best_response(arg, payoff_perturbation=pert, **kw))
-                k = rng.randrange(len(want))
-                rd = int(player.best_response(arg, tie_breaking="random", payoff_perturbation=pert, random_state=FixedDraw(k), **kw))
-                if sm != want[0] or rd != want[k]:
-                    ctx.spec_fail("best_response-tiebreak", "smallest %d random(%d) %d among %s" % (sm, k, rd, want), dict(rp, tol=tol))
+                # tie_breaking='random' with an injected draw; with a single candidate no number may be drawn
+                k = rng.randrange(len(want)) if len(want) > 1 else rng.randrange(5)
+                fd = FixedDraw(k)
+                rd = int(player.best_response(arg, tie_breaking="random", payoff_perturbation=pert, random_state=fd, **kw))
+                want_rd = want[k] if len(want) > 1 else want[0]
+                if sm != want[0] or rd != want_rd or (len(want) == 1 and getattr(fd, "draws", 0) != 0):
+                    ctx.spec_fail("best_response-tiebreak", "smallest %d random(%d) %d among %s (draws %s)" % (
+                        sm, k, rd, want, getattr(fd, "draws", 0)), dict(rp, tol=tol))
+                if rng.random() < 0.1:
+                    try:
+                        player.best_response(arg, tie_breaking=rng.choice(["largest", True, None, "Smallest"]), **kw)
+                        ctx.spec_fail("best_response-tiebreak", "an unknown tie_breaking was accepted", dict(rp, tol=tol))
+                    except ValueError:
+                        ctx.count("err:br:bad-tie_breaking")
+                if rng.random() < 0.4:
+                    ctx.count("brr:single-candidate" if len(want) == 1 else "brr:drawn")
+                    return ("brr:%d:%s:%s:%s:%d" % (i, acts_str(opps), tol_tok(tol),
+                                                    "none" if pert is None else rats(F(x) for x in pert.tolist()), k),
+                            "i%d" % rd, g, T, is_poly)
                 return ("br:%d:%s:%s:%s" % (i, acts_str(opps), tol_tok(tol), "none" if pert is None else rats(F(x) for x in pert.tolist())),
                         "i" + ints(brs), g, T, is_poly)
             own = rand_act(T.nums[i], cls)
@@ -1591,6 +1607,16 @@ def run(ctx):
                 ctx.spec_fail("best_response-tol", "best_response(tol=%r, tie_breaking=False)=%s, definition %s (payoffs %s)" % (
                     tol, brs, wl, [float(x) for x in ev]), dict(rep_, opponents=opps))
             emit("br:%d:%s:%s:none" % (i, acts_str(opps), tol_tok(tol)), "i" + ints(brs))
+            if len(wl) >= 2:
+                kd = rng.randrange(len(wl))
+                okr, rd = guarded("best_response(random)", lambda: int(player.best_response(arg, tie_breaking="random",
+                                                                                            random_state=FixedDraw(kd), **kw)))
+                if okr:
+                    if rd != wl[kd]:
+                        ctx.spec_fail("best_response-tiebreak", "tie_breaking='random' with draw %d gave %d among %s" % (kd, rd, wl),
+                                      dict(rep_, opponents=opps))
+                    ctx.count("brr:drawn")
+                    emit("brr:%d:%s:%s:none:%d" % (i, acts_str(opps), tol_tok(tol), kd), "i%d" % rd)
         for own in (a, b):
             okc, r = guarded("is_best_response", lambda: bool(player.is_best_response(own, arg, **kw)))
             if okc:
@@ -1632,6 +1658,68 @@ def run(ctx):
 
     for _ in range(ctx.n(500, 5000)):
         tol_history()
+
+    # ---- pure2mixed and the Numba kernel best_response_2p (alternative entry points of the same convention) -----
+    from quantecon.game_theory.normal_form_game import best_response_2p, pure2mixed
+    for n in range(1, ctx.n(5, 8)):
+        for a in range(-n - 2, n + 2):
+            af = fint(a)
+            try:
+                r = pure2mixed(fint(n) if rng.random() < 0.5 else n, af)
+                out = "v" + rats(F(x) for x in r.tolist())
+                wantv = [1.0 if k == a % n else 0.0 for k in range(n)]
+                if not (-n <= a < n) or r.dtype.kind != "f" or r.tolist() != wantv:
+                    ctx.spec_fail("pure2mixed", "pure2mixed(%d, %d) = %r" % (n, a, r), {"n": n, "action": a})
+                else:
+                    # bridge: the mixed representation of a pure action gives the same payoff vector
+                    Mp = np.array([[rng.randint(-9, 9) for _ in range(n)] for _ in range(3)], dtype=float)
+                    pp_ = Player(Mp)
+                    if pp_.payoff_vector(r).tolist() != pp_.payoff_vector(a % n).tolist() or \
+                            int(pp_.best_response(r)) != int(pp_.best_response(a % n)):
+                        ctx.spec_fail("pure2mixed-bridge", "payoff_vector(pure2mixed(%d,%d)) differs from payoff_vector(%d)" % (n, a, a % n),
+                                      {"n": n, "action": a, "payoff_array": Mp.tolist()})
+                ctx.count("p2m:ok")
+            except IndexError:
+                out = "ERR:IndexError"
+                ctx.count("p2m:IndexError")
+                if -n <= a < n:
+                    ctx.spec_fail("pure2mixed", "pure2mixed(%d, %d) raised IndexError" % (n, a), {"n": n, "action": a})
+            cases.append(Case("C14 p2m n=%d a=%d" % (n, a), out, nontrivial=(n >= 2 and -n <= a < n), tag="pure2mixed"))
+    for _ in range(ctx.n(250, 2500)):
+        n, m = rng.randint(1, 5), rng.randint(1, 5)
+        M2 = np.array([[rng.randint(-36, 36) / 4.0 for _ in range(m)] for _ in range(n)])
+        if n >= 2 and rng.random() < 0.5:       # a twin row a tiny margin above / below / equal to another
+            a_, b_ = rng.sample(range(n), 2)
+            M2[b_] = M2[a_] + rng.choice([0.0, 2.0 ** -30, -2.0 ** -30, 2.0 ** -20, 0.5])
+            ctx.count("br2p:twin-rows")
+        xk = rng.randrange(3)
+        x2 = mixed(m, "dyad") if xk == 0 else (pure2mixed(m, rng.randrange(m)) if xk == 1 else np.full(m, 0.25))
+        tol = rng.choice([None, 0.0, 0.5, 2.0 ** -20, 1e-8, 2.0 ** -31, -1.0])
+        tolv = F(1e-8) if tol is None else F(tol)
+        pv = [sum(F(M2[a, b].item()) * F(float(x2[b])) for b in range(m)) for a in range(n)]
+        wl = [a for a in range(n) if pv[a] >= max(pv) - tolv]
+        cur["call"] = "best_response_2p(%s, %s, tol=%r)" % (M2.tolist(), x2.tolist(), tol)
+        try:
+            x_before, M_before = x2.tobytes(), M2.tobytes()
+            r = best_response_2p(M2, x2) if tol is None else (best_response_2p(M2, x2, tol) if rng.random() < 0.5 else best_response_2p(M2, x2, tol=tol))
+            if x2.tobytes() != x_before or M2.tobytes() != M_before:
+                ctx.spec_fail("input-mutated", "best_response_2p changed its arguments", {"call": cur["call"]})
+        except Exception as e:
+            ctx.spec_fail("exception:best_response_2p", "%s raised %s: %s" % (cur["call"], type(e).__name__, e), {"call": cur["call"]})
+            continue
+        want2 = wl[0] if wl else None
+        if r != want2:
+            ctx.spec_fail("best_response_2p", "best_response_2p = %r, definition (least a with pv[a] >= max - tol) %r; pv = %s" % (
+                r, want2, [float(v) for v in pv]), {"payoff_matrix": M2.tolist(), "x": x2.tolist(), "tol": tol})
+        if tol is None or tol >= 0:
+            sm = int(Player(M2).best_response(x2, **({} if tol is None else {"tol": tol})))
+            if sm != r:
+                ctx.spec_fail("best_response_2p-vs-player", "best_response_2p = %r but Player.best_response = %r" % (r, sm),
+                              {"payoff_matrix": M2.tolist(), "x": x2.tolist(), "tol": tol})
+        ctx.count("br2p:none" if r is None else ("br2p:tie-broken" if len(wl) > 1 else "br2p:unique"))
+        cases.append(Case("C14 br2p n=%d m=%d data=%s x=%s tol=%s" % (n, m, rats(F(v) for v in M2.ravel().tolist()),
+                                                                    rats(F(float(v)) for v in x2), "none" if tol is None else rat(F(tol))),
+                          "none" if r is None else "i%d" % r, nontrivial=(n >= 2 and m >= 2), tag="best_response_2p"))
 
     # ---- every pair / triple of state-changing and observing calls on small games -------------------------
     seqs = list(itertools.product(["set", "del", "gam", "reprof", "logit", "pv", "nash"], repeat=2))
